@@ -508,7 +508,7 @@ class Translator:
                 elif op == 'ret':
                     body.append('return %s;' % (self.val(ops[0]) if n else ''))
                 elif op == 'unreachable':
-                    body.append('__verif_unreachable(); return %s;' % retdefault)
+                    body.append('if (!__verif_exc_pending) __verif_unreachable(); return %s;' % retdefault)
                 elif op in ('call', 'invoke'):
                     body.extend(self.call(ins, op, b, edge, retdefault))
                 elif op == 'landingpad':
@@ -692,7 +692,7 @@ class Translator:
     def run(self, inert=()):
         f = GetFirstFunction(self.mod)
         protos = []; bodies = []; hdr = []
-        self.defined_funcs = []; self.ext_funcs = {}
+        self.defined_funcs = []; self.ext_funcs = {}; self.inert_used = []
         while f:
             name = vname(f)
             if not name.startswith('llvm.'):
@@ -705,7 +705,8 @@ class Translator:
                         va = IsFunctionVarArg(ft)
                         cn = self.fname(f)
                         self.ext_funcs[name] = cn
-                        if name in inert:
+                        if name in inert or any(re.fullmatch(p, name) for p in inert):
+                            self.inert_used.append(name)
                             args = ', '.join('%s p%d' % (p, i) for i, p in enumerate(ps)) + (', ...' if va and ps else '')
                             ret = '' if rt == 'void' else (' return (%s){0};' % rt if (rt.startswith('struct') or re.match(r'A\d+$', rt)) else ' return (%s)0;' % rt)
                             bodies.append('%s %s(%s) {%s } /* inert stub: %s */\n' % (rt, cn, args or 'void', ret, name))
@@ -762,9 +763,9 @@ if __name__ == '__main__':
     a = ap.parse_args()
     tr = Translator(a.ll)
     tr.lifetime_heap = a.lifetime_heap
-    inert = set(x for x in a.inert.split(',') if x)
+    inert = set(x for x in a.inert.split(';;') if x)
     c, h = tr.run(inert)
     open(a.outbase + '.c', 'w').write(c)
     open(a.outbase + '.h', 'w').write(h)
     json.dump({'defined': tr.defined_funcs, 'externals': tr.ext_funcs, 'external_objects': tr.ext_globals,
-               'typeinfo_ids': tr.typeinfo_ids, 'inert': sorted(inert)}, open(a.outbase + '.json', 'w'), indent=1)
+               'typeinfo_ids': tr.typeinfo_ids, 'inert': sorted(tr.inert_used)}, open(a.outbase + '.json', 'w'), indent=1)
